@@ -96,3 +96,60 @@ Proof.
   split; [vm_compute; reflexivity|]. split; [apply fcs_sorted|]. unfold result_le. vm_compute. discriminate.
 Qed.
 End Example_sorted.
+
+(* ------------------------------------------------------------------ prune_automorphisms: the host node sets *)
+Lemma insertN_perm x l : Permutation.Permutation (insertN x l) (x :: l).
+Proof.
+  induction l as [|y r IH]; simpl; [reflexivity|]. destruct (N.leb x y); [reflexivity|].
+  eapply Permutation.perm_trans; [apply Permutation.perm_skip; exact IH|apply Permutation.perm_swap].
+Qed.
+
+Lemma host_set_perm m : Permutation.Permutation (host_set m) (map snd m).
+Proof.
+  unfold host_set. induction (map snd m) as [|x r IH]; simpl; [constructor|].
+  eapply Permutation.perm_trans; [apply insertN_perm|now apply Permutation.perm_skip].
+Qed.
+
+Lemma nlist_eqb_eq a b : nlist_eqb a b = true <-> a = b.
+Proof.
+  revert b. induction a as [|x a IH]; intros [|y b]; simpl; split; try discriminate; try reflexivity.
+  - intros H. apply andb_prop in H. destruct H as [H1 H2]. apply N.eqb_eq in H1. apply IH in H2. congruence.
+  - intros E. inversion E; subst. rewrite N.eqb_refl. simpl. now apply IH.
+Qed.
+
+Lemma dedupe_sets_spec l : (forall x, In x (dedupe_sets l) <-> In x l) /\ NoDup (dedupe_sets l).
+Proof.
+  induction l as [|x r (IH1 & IH2)]; simpl; [split; [tauto|constructor]|].
+  destruct (existsb (nlist_eqb x) r) eqn:E.
+  - apply existsb_exists in E. destruct E as (y & Hy & Ey). apply nlist_eqb_eq in Ey. subst y.
+    split; [|exact IH2]. intros z. rewrite IH1. split; [auto|intros [<-|H]; auto].
+  - split.
+    + intros z. simpl. rewrite IH1. tauto.
+    + constructor; [|exact IH2]. intros I. apply IH1 in I.
+      assert (existsb (nlist_eqb x) r = true) by (apply existsb_exists; exists x; split; [exact I|now apply nlist_eqb_eq]).
+      congruence.
+Qed.
+
+(** the host node sets that keep a representative under prune_automorphisms: each occurs once, and they are exactly the
+    (sorted) host node sets of the mappings the unpruned search returns *)
+Theorem host_sets_spec maps :
+  NoDup (host_sets maps) /\
+  (forall hs, In hs (host_sets maps) <-> exists m, In m maps /\ host_set m = hs) /\
+  (forall m, Permutation.Permutation (host_set m) (map snd m)).
+Proof.
+  unfold host_sets. destruct (dedupe_sets_spec (map host_set maps)) as (H1 & H2).
+  split; [exact H2|]. split; [|exact host_set_perm].
+  intros hs. rewrite H1, in_map_iff. split; intros (m & A & B); exists m; auto.
+Qed.
+
+Module Example_auto.
+Import Example_sorted.
+Open Scope N_scope.
+(** ga = C1-C2=O3 against gb = O10=C11-C12, all sizes: 10 mappings, 7 host node sets keep a representative *)
+Example host_sets_nonvacuous :
+  length (r_maps (find_common_subgraph [9] false 9 ga gb false)) = 10%nat /\
+  host_sets (r_maps (find_common_subgraph [9] false 9 ga gb false)) =
+    [[10; 11; 12]; [11; 12]; [10; 12]; [10; 11]; [11]; [12]; [10]] /\
+  NoDup (host_sets (r_maps (find_common_subgraph [9] false 9 ga gb false))).
+Proof. split; [vm_compute; reflexivity|]. split; [vm_compute; reflexivity|apply host_sets_spec]. Qed.
+End Example_auto.
